@@ -63,7 +63,10 @@ def generate(seed: int, tier: str, index: int) -> dict:
         cell = (c * 77) % (N_SLICES * 10)
         spec["slice"] = cell % N_SLICES
         spec["world"] = {"variant": ["full", "noenc", "noaudio", "notiming", "unindexed"][(cell // N_SLICES) % 5]}
-        spec["t0_us"] = simclock.SimClock.parse("2026-09-26T10:00:00Z")
+        # today, just after the NTP era rolls over (2036) and just after 2^31 seconds since 1970
+        spec["t0_us"] = simclock.SimClock.parse(["2026-09-26T10:00:00Z", "2036-02-07T06:28:20Z",
+                                                 "2038-01-19T03:14:09Z"][(c // (N_SLICES * 10)) % 3 if c >= N_SLICES * 10
+                                                                         else cell % 3])
         spec["sched_seed"] = 0
         spec["actors"] = [{"id": "hostile", "kind": "hostile", "role": ["anonymous", "media"][cell // (N_SLICES * 5)],
                            "prng": 0, "script": [{"op": "slice", "n": spec["slice"]}]}]
@@ -120,6 +123,7 @@ def catalogue(world) -> list[tuple[str, str, dict | None]]:
         f"/dash/live/{sdir}/{mf}/time/0.m4v", f"/patch/{sdir}/hand_made/1700000000",
         f"/mps/live/{ids.get('mps') or 'mps1'}/hand_made.mpd", f"/mps/vod/{ids.get('mps') or 'mps1'}/hand_made.mpd",
         f"/play/live/{sdir}/hand_made.mpd/index.html", f"/stream/{spk}", "/api/cgiOptions",
+        "/time/http-ntp", "/time/iso",
     ]
     items: list[tuple[str, str, dict | None]] = []
     for t in targets:
